@@ -11,19 +11,39 @@ pub struct Case {
     pub k: usize,
     /// (grid position 1..=3 of {0,1,1.5,3,4}, multiplicity)
     pub interior: Vec<(usize, usize)>,
+    /// Some(m): instead, m interior knots at j/2 (j = 1..=m), the middle one doubled when k >= 3, domain [0, (m+1)/2]
+    #[serde(default)]
+    pub long: Option<usize>,
+}
+
+fn long_knots(k: usize, m: usize) -> Vec<Rat> {
+    let mut t = vec![Rat::zero(); k];
+    for j in 1..=m {
+        t.push(Rat::new(j as i128, 2));
+        if k >= 3 && j == (m + 1) / 2 {
+            t.push(Rat::new(j as i128, 2));
+        }
+    }
+    for _ in 0..k {
+        t.push(Rat::new(m as i128 + 1, 2));
+    }
+    t
 }
 
 pub fn check(case: &Case, idx: u64, acc: &mut Acc) {
     let cj = || serde_json::to_value(case).unwrap();
     let k = case.k;
-    let tr = knots(k, &case.interior);
+    let tr = match case.long {
+        Some(m) => long_knots(k, m),
+        None => knots(k, &case.interior),
+    };
     let t: Vec<f64> = tr.iter().map(|r| r.f()).collect();
     let basis = Basis::new(k, &tr);
     let n = basis.n();
     let pts = eval_points(&basis.u);
     let hmin = basis.u.windows(2).map(|w| w[1].sub(w[0]).f()).fold(f64::INFINITY, f64::min);
     let last = *basis.u.last().unwrap();
-    let repeated = case.interior.iter().any(|(_, m)| *m > 1);
+    let repeated = case.interior.iter().any(|(_, m)| *m > 1) || (case.long.is_some() && k >= 3);
     for x in pts.iter() {
         let xf = x.f();
         let at_knot = basis.u.contains(x);
@@ -102,6 +122,30 @@ pub fn check(case: &Case, idx: u64, acc: &mut Acc) {
             acc.violate(&format!("partition-of-unity/{}", place), idx, cj(), json!({"x": xf, "want": 1.0}), json!(sum));
         }
     }
+    // scale invariance: knots and abscissa multiplied by a power of two (exact in binary floating point) give
+    // bit-identical values, and derivatives scaled by the exact inverse power
+    for e in [-80i32, -60, -54, -53, -30, 40] {
+        let f = 2.0_f64.powi(e);
+        let ts: Vec<f64> = t.iter().map(|v| v * f).collect();
+        for x in pts.iter() {
+            let (xf, xs) = (x.f(), x.f() * f);
+            for i in 0..n {
+                acc.evals_add(2);
+                let (v, vs) = (bsplev_single_f64(&xf, i, &k, &t, None), bsplev_single_f64(&xs, i, &k, &ts, None));
+                if v.to_bits() != vs.to_bits() && v != vs {
+                    acc.violate("scale-invariance/value", idx, cj(), json!({"x": xf, "i": i, "scale": format!("2^{}", e), "want": v}), json!(vs));
+                    return;
+                }
+                if k >= 2 {
+                    let (d, ds) = (bspldnev_single_f64(&xf, i, &k, &t, 1, None), bspldnev_single_f64(&xs, i, &k, &ts, 1, None) * f);
+                    if d != ds {
+                        acc.violate("scale-invariance/derivative", idx, cj(), json!({"x": xf, "i": i, "scale": format!("2^{}", e), "want": d}), json!(ds));
+                        return;
+                    }
+                }
+            }
+        }
+    }
     // just outside the domain every function is zero
     for xf in [t[0] - 0.25, t[t.len() - 1] + 0.25] {
         for i in 0..n {
@@ -121,7 +165,12 @@ pub fn cases(tier: Tier) -> Vec<Case> {
     let mut out = vec![];
     for k in 1..=kmax {
         for interior in interior_configs(k) {
-            out.push(Case { k, interior });
+            out.push(Case { k, interior, long: None });
+        }
+    }
+    for k in 1..=5usize {
+        for m in [7usize, 8, 15, 16, 17, 31, 32, 33, 64] {
+            out.push(Case { k, interior: vec![], long: Some(m) });
         }
     }
     out
@@ -141,10 +190,10 @@ pub fn run(ctx: &Ctx, replay_file: Option<String>) -> ! {
          i128 rational coefficients, symbolic derivatives, right limit, left limit at the right end point): value >= 0 \
          with no tolerance, exactly 0 outside [t_i, t_{i+k}], sum = 1 to 1e-12, m-th derivative equal to the model's, \
          exactly 0 for m >= k; the dual-abscissa variants (bsplev/bspldnev_single_dual, _dual2) return the same \
-         value with the next one / two derivatives as first / second order sensitivities. The model itself is checked to be a partition of unity at every point. Non-trivial: \
+         value with the next one / two derivatives as first / second order sensitivities. Scale invariance: every knot vector and abscissa multiplied by 2^e, e in {-80,-60,-54,-53,-30,40}, gives bit-identical values and exactly rescaled first derivatives. Long knot vectors: orders 1..5 with 7, 8, 15, 16, 17, 31, 32, 33, 64 interior knots at half-integer positions (middle knot doubled). The model itself is checked to be a partition of unity at every point. Non-trivial: \
          evaluations exactly at a knot where the function is non-zero.",
         json!({"max_order": ctx.tier.pick(6, 7), "knot_vectors": cs.len()}),
     )
-    .assume("knots on the grid {0,1,1.5,3,4}: uneven spacing, but values outside this grid are not enumerated");
+    .assume("knots on the grid {0,1,1.5,3,4} (uneven spacing) or on the half-integer grid (long vectors); other values are not enumerated");
     finish(ctx, acc, meta)
 }
